@@ -782,6 +782,16 @@ pub const fn is_valid_punctuation(format: u128) -> bool {
     }
 }
 
+/// Determine if the parser would read the character as the exponent character.
+#[inline(always)]
+const fn is_exponent_character(format: u128, c: u8, exponent: u8) -> bool {
+    if format & CASE_SENSITIVE_EXPONENT != 0 {
+        c == exponent
+    } else {
+        c.to_ascii_lowercase() == exponent.to_ascii_lowercase()
+    }
+}
+
 /// Determine if all of the "punctuation" characters for the options API are valid.
 #[doc(hidden)]
 #[inline(always)]
@@ -798,7 +808,9 @@ pub const fn is_valid_options_punctuation(format: u128, exponent: u8, decimal_po
         false
     } else if cfg!(feature = "format") && digit_separator(format) == decimal_point {
         false
-    } else if cfg!(feature = "format") && digit_separator(format) == exponent {
+    } else if cfg!(feature = "format") && is_exponent_character(format, digit_separator(format), exponent) {
+        // The exponent is matched without regard to case unless the format is
+        // case-sensitive, so the separator cannot be the same letter either.
         false
     } else if cfg!(feature = "format") && base_prefix(format) == decimal_point {
         false
